@@ -74,6 +74,7 @@ type frame struct {
 	localRefs map[string][]localRef
 	curBlock *ssa.BasicBlock
 	boxN     int
+	atCallSeen map[*Clause]bool
 }
 
 func (fr *frame) name(v ssa.Value) string {
